@@ -144,6 +144,8 @@ class LoadScheduling:
                     self.collection, collection, other_node.gateway.id, node.gateway.id
                 )
                 self.log(msg)
+                # It can not take part: let it exit instead of idling.
+                node.shutdown()
                 return
         self.node2collection[node] = list(collection)
 
